@@ -275,10 +275,29 @@ func (p *Program) readContractFile(pkg *packages.Package, file *ast.File, fname 
 				}
 				key := funcKey(pkg.Name, m[1], m[2])
 				decl := p.Decls[key]
+				var fn *types.Func
+				if decl == nil && m[1] != "" {
+					// a method of an interface type: no body, the contract can only be assumed; it is
+					// used at calls through the interface
+					if tn, ok := pkg.Types.Scope().Lookup(m[1]).(*types.TypeName); ok {
+						if it, ok := tn.Type().Underlying().(*types.Interface); ok {
+							for i := 0; i < it.NumMethods(); i++ {
+								if it.Method(i).Name() == m[2] {
+									fn = it.Method(i)
+								}
+							}
+						}
+					}
+					if fn != nil {
+						decl = &ast.FuncDecl{Name: ast.NewIdent(m[2]), Type: &ast.FuncType{Params: &ast.FieldList{}}, Body: &ast.BlockStmt{}}
+					}
+				}
 				if decl == nil {
 					return &BindError{fmt.Sprintf("%s:%d: contract for unknown function %s", fname, line, key)}
 				}
-				fn, _ := pkg.TypesInfo.Defs[decl.Name].(*types.Func)
+				if fn == nil {
+					fn, _ = pkg.TypesInfo.Defs[decl.Name].(*types.Func)
+				}
 				if fn == nil {
 					return &BindError{fmt.Sprintf("%s:%d: no type information for %s", fname, line, key)}
 				}
